@@ -56,19 +56,20 @@ def _modules(coll, present):
 
 
 def _creator(alias, prog_by_mod: dict) -> str:
-    """Which code path built this (already bound) alias object - abstract vocabulary of Loader.tla."""
-    par = alias._parent
+    """Which code path built this (already bound) alias object - abstract vocabulary of Loader.tla; public observations only."""
+    par = alias.parent
     if par is None:
         return "detached"
     if par.is_alias:
         return "alias_members"
-    if id(alias) in lib.EXPANDED:
+    if lib.is_expanded(alias):
         return "expand_wildcards"
     return "resolve_target"
 
 
-def check_state(griffe, coll, present, prog_by_mod, after: str) -> list:
-    """Clauses (ii) and (iii) on the real objects between public calls: [(sig, what)]."""
+def check_state(griffe, coll, present, prog_by_mod, after: str, skipped: set) -> list:
+    """Clauses (ii) and (iii) on the real objects between public calls: [(sig, what)].  `resolved` / `target` are public;
+    the in-progress flag is read through a tolerant accessor (absent -> the clause is skipped and noted)."""
     bad = []
     for m, mod in _modules(coll, present):
         for n, mem in list(mod.members.items()):
@@ -76,12 +77,14 @@ def check_state(griffe, coll, present, prog_by_mod, after: str) -> list:
                 continue
             # (ii) no _passed_through left behind, anywhere along the bound chain
             link, hops = mem, 0
-            prev = None
             while link is not None and link.is_alias and hops < 12:
-                if link._passed_through:
+                flag = lib.passed_flag(link)
+                if flag is None:
+                    skipped.add("passed-flag")
+                elif flag:
                     bad.append(({"clause": "passed-flag", "after": after}, f"{link.path}._passed_through is still True after {after}"))
-                prev, link, hops = link, link._target, hops + 1
-            if mem._target is None:
+                link, hops = lib.bound_target(link), hops + 1
+            if not mem.resolved:
                 continue
             # (iii) all-or-nothing: a bound alias must lead to a real object through bound links only
             if link is None:
@@ -93,39 +96,40 @@ def check_state(griffe, coll, present, prog_by_mod, after: str) -> list:
 
 
 def _holder(mem):
-    """The last bound alias of the chain (the one whose _target is the unresolved alias)."""
-    link = mem
-    while link._target is not None and link._target.is_alias and link._target._target is not None:
-        link = link._target
+    """The last bound alias of the chain (the one whose target is the unresolved alias)."""
+    link, hops = mem, 0
+    while hops < 12:
+        nxt = lib.bound_target(link)
+        if nxt is None or not nxt.is_alias or not nxt.resolved:
+            return link
+        link, hops = nxt, hops + 1
     return link
 
 
 def _inner(mem):
-    return _holder(mem)._target
+    return lib.bound_target(_holder(mem))
 
 
 def core(coll, present) -> dict:
     out = {}
     for m, mod in _modules(coll, present):
         ex = mod.exports
-        out[m] = {"members": [[n, lib.oid(mem), lib.oid(mem._target) if mem.is_alias else None, mem.target_path if mem.is_alias else None] for n, mem in mod.members.items()],
+        out[m] = {"members": [[n, lib.oid(mem), lib.oid(lib.bound_target(mem)) if mem.is_alias else None, mem.target_path if mem.is_alias else None] for n, mem in mod.members.items()],
                   "exports": None if ex is None else [e if isinstance(e, str) else "expr:" + getattr(e, "name", "?") for e in ex]}
     return out
 
 
+PUBLIC_LOADER = ("load", "resolve_aliases", "expand_exports", "expand_wildcards", "resolve_module_aliases")
+
+
 def _site(tb) -> str:
-    frames = traceback.extract_tb(tb)
-    names = [(os.path.basename(f.filename), f.name) for f in frames if "_griffe" in f.filename]
-    loader = [n for f, n in names if f == "loader.py"]
-    after = []
-    seen_loader = False
-    for f, n in names:
-        if f == "loader.py":
-            seen_loader = True
-            after = []
-        elif seen_loader:
-            after.append(n)
-    return (loader[-1] if loader else "?") + ":" + (after[0] if after else "-")
+    """Raise site in terms of PUBLIC functions only: the innermost public loader method on the stack and the first public
+    function called below it (private helpers may be renamed / split freely)."""
+    names = [f.name for f in traceback.extract_tb(tb) if "_griffe" in f.filename and not f.name.startswith("_") and f.name != "<lambda>"]
+    last = max((i for i, n in enumerate(names) if n in PUBLIC_LOADER), default=-1)
+    if last < 0:
+        return "?:-"
+    return names[last] + ":" + (names[last + 1] if last + 1 < len(names) else "-")
 
 
 def run_case(case: dict) -> dict:
@@ -133,7 +137,9 @@ def run_case(case: dict) -> dict:
     present = [e["m"] for e in case["prog"]]
     prog_by_mod = {e["m"]: e["stmts"] for e in case["prog"]}
     files = lib.render_program(case["prog"])
-    out = {"ops": [], "bad": [], "real": [], "probes": [], "trace": [], "extra_probes": []}
+    out = {"ops": [], "bad": [], "real": [], "probes": [], "trace": [], "extra_probes": [], "tap_missing": [], "skipped": []}
+    skipped: set = set()
+    lib.set_program(case["prog"])
     with scratch("c06-") as d:
         lib.write_package(d, files)
         loader = griffe.GriffeLoader(search_paths=[d], allow_inspection=False)
@@ -172,7 +178,7 @@ def run_case(case: dict) -> dict:
                                        f"{op['op']}({op['arg']}) raised {type(exc).__name__}: {str(exc)[:120]}"))
                     crashed = True
                 out["ops"].append(rec)
-                for sig, what in check_state(griffe, coll, present, prog_by_mod, op["op"]):
+                for sig, what in check_state(griffe, coll, present, prog_by_mod, op["op"], skipped):
                     if api and sig["clause"] == "all-or-nothing":
                         continue          # the setter binds onto whatever it is given: chains built through it are not claimed all-or-nothing
                     out["bad"].append((sig, what))
@@ -194,6 +200,7 @@ def run_case(case: dict) -> dict:
                     prev_core = now
             tap.close()
             out["trace"] = tap.events
+            out["tap_missing"] = tap.missing
             out["real"] = lib.project(griffe, coll, present)
             if not crashed:
                 out["probes"] = lib.probe_all(griffe, coll, present)
@@ -213,7 +220,7 @@ def run_case(case: dict) -> dict:
                                 out["bad"].append(({"clause": "other", "accessor": acc, "exc": o}, f"{mem.path}.{acc} raised {o}"))
                             if acc == "final_target" and r and o != "ok":
                                 out["extra_probes"].append([mem.path, "resolved-but-" + o])
-                for sig, what in check_state(griffe, coll, present, prog_by_mod, "probe"):
+                for sig, what in check_state(griffe, coll, present, prog_by_mod, "probe", skipped):
                     if sig["clause"] == "passed-flag":
                         out["bad"].append((sig, what))
         except Hang:
@@ -221,6 +228,7 @@ def run_case(case: dict) -> dict:
         finally:
             signal.setitimer(signal.ITIMER_VIRTUAL, 0)
             tap.close()
+            out["skipped"] = sorted(skipped)
     return out
 
 
@@ -242,6 +250,8 @@ def evaluate(run: Run, case: dict, res: dict, stats: dict):
     seen = set()
     for sig, what in res["bad"]:
         sig = dict(sig, cause=cause)
+        if sig["clause"] == "no-raise":
+            sig["predicted"] = bool(case["crashed"])    # does Loader.tla predict that this public call raises?
         if sig["clause"] == "fixpoint":
             sig["predicted"] = bool(case["fixbad"])      # does Loader.tla (transcription of the current code) show it on this behaviour?
         k = json.dumps(sig, sort_keys=True)
@@ -287,16 +297,20 @@ def evaluate(run: Run, case: dict, res: dict, stats: dict):
     model_aon = case["aon"]
     real_aon = not any(s["clause"] == "all-or-nothing" for s, _ in res["bad"])
     stats["conform"] += 1
+    for k in res.get("tap_missing", []) + res.get("skipped", []):
+        if k not in stats["not_observable"]:
+            stats["not_observable"].append(k)
+            run.note(f"'{k}' is not observable on this implementation (symbol absent): that conformance detail / clause is skipped")
     if case["hist"]:
-        st = [[ev[0], ev[1] if ev[1] else [""]] for ev in case["hist"]]
-        rt = [[e[0], e[1]] for e in res["trace"]]
-        if st == rt:
+        if lib.same_trace(case["hist"], res["trace"], res.get("tap_missing", [])):
             stats["trace_accepted"] += 1
         else:
             stats["trace_rejected"] += 1
             if stats["trace_rejected"] <= 3:
+                st = [[ev[0], ev[1] if ev[1] else [""]] for ev in case["hist"] if ev[0] not in res.get("tap_missing", [])]
+                rt = [[e[0], e[1]] for e in res["trace"]]
                 k = next((i for i, (a, b) in enumerate(zip(st, rt)) if a != b), min(len(st), len(rt)))
-                run.note(f"trace rejected: {text}: step {k}: spec {st[k:k + 1]} real {rt[k:k + 1]} (lengths {len(st)}/{len(rt)})")
+                run.note(f"trace rejected (drift, not a verdict): {text}: step {k}: spec {st[k:k + 1]} real {rt[k:k + 1]} (lengths {len(st)}/{len(rt)})")
     _ = (model_aon, real_aon)
 
 
@@ -338,6 +352,7 @@ def main(tier: str, replay: str | None = None):
                 "free schedules) x every schedule of public calls (packages loaded in any order, resolve_aliases() in between and twice at the end); "
                 "non-trivial = at least one import statement; distinct by (program text, schedule).")
     stats = {k: 0 for k in ("violating", "drift", "unmodelled", "conform", "model_crash_confirmed", "trace_accepted", "trace_rejected")}
+    stats["not_observable"] = []
     if replay:
         with open(replay) as fh:
             rec = json.load(fh)
